@@ -7,7 +7,8 @@
    Gen/Types.v, regenerated from /repo on every run. *)
 From Coq Require Import String.
 From PV Require Import Base.Bytes Base.Res Base.Proto Base.PyStr Model.Identity Spec.IdentitySpec.
-From PV Require Import Proofs.IdentityHex Proofs.IdentityTables Proofs.IdentityP.
+From PV Require Import Spec.RegistrySpec.
+From PV Require Import Proofs.IdentityHex Proofs.IdentityTables Proofs.IdentityP Proofs.IdentityRegistry.
 From PV Require Gen.Vendors Gen.Status.
 Open Scope Z_scope.
 
@@ -52,6 +53,28 @@ Proof.
   split; [intros i; split; reflexivity|exact identity_encode_decode].
 Qed.
 Print Assumptions C16_holds.
+
+(* ---- the documented registries (Spec/RegistrySpec.v: hand-maintained snapshot, NOT regenerated) are
+   preserved by the tables of /repo: every documented vendor id / product type / keyswitch status pair
+   still maps to its documented text.  spec ⊆ regenerated: additions are quiet; a deleted, renamed
+   or renumbered entry breaks this obligation (and, through C16_holds, every decode path then shows it). *)
+Theorem registry_preserved :
+  (forall id name, In (id, name) spec_vendors -> tbl_find Gen.Vendors.vendors id = Some name)
+  /\ (forall id name, In (id, name) spec_product_types -> tbl_find Gen.Status.product_types id = Some name)
+  /\ (forall b0 sub b1 text, In (b0, sub) spec_keyswitch_table -> In (b1, text) sub -> spec_keyswitch b0 b1 = text)
+  /\ (forall i, (forall name, In (i_vendor i, name) spec_vendors -> d_vendor (view_module i) = name)
+             /\ (forall name, In (i_product_type i, name) spec_product_types -> d_product_type (view_module i) = name)).
+Proof.
+  split; [exact vendors_preserved|]. split; [exact product_types_preserved|].
+  split; [exact keyswitch_preserved|exact registry_view].
+Qed.
+Print Assumptions registry_preserved.
+
+Example registry_nonvacuous :
+  (1000 <= length spec_vendors)%nat /\ (30 <= length spec_product_types)%nat
+  /\ In (9876, zs_of_string "ODVA"%string) spec_vendors
+  /\ In (1, zs_of_string "Rockwell Automation/Allen-Bradley"%string) spec_vendors.
+Proof. exact spec_registry_inhabited. Qed.
 
 (* non-vacuity: a ControlLogix-like identity (known vendor and product type, serial with leading zeros)
    is in range, its ListIdentity reply decodes to the expected dict, and that dict is in the encode domain *)
